@@ -30,10 +30,11 @@ const (
 	BPanic                   // panic with a tagged value
 	BIgnoredErrors           // make rejected calls (errors ignored), then behave
 	BNestedFail              // a nested MarshalEncode fails inside a struct; ignore it, close by hand, repeat a name
+	BNestedThenReset         // marshal a nested value whose type has its own MarshalJSONTo via MarshalEncode, then call Reset
 	BNumKinds
 )
 
-var KindNames = []string{"ok", "error", "unsupported", "unsupported-after-use", "unsupported-after-open", "zero-values", "two-values", "open-container", "close-parent", "bad-bytes", "reenter", "reset", "panic", "ignored-errors", "nested-fail"}
+var KindNames = []string{"ok", "error", "unsupported", "unsupported-after-use", "unsupported-after-open", "zero-values", "two-values", "open-container", "close-parent", "bad-bytes", "reenter", "reset", "panic", "ignored-errors", "nested-fail", "nested-then-reset"}
 
 // Behaviour of one peer (by ID).
 type Behaviour struct {
@@ -67,6 +68,8 @@ type Env struct {
 	Depth     int // re-entrancy guard
 	// InUse counts, per coder, how many user callbacks currently hold it.
 	InUse map[any]int
+	// Names maps matrix candidate names to behaviour IDs.
+	Names map[string]int
 }
 
 var Cur = &Env{}
@@ -169,6 +172,27 @@ func (e *Env) MarshalTo(method string, id int, enc *jsontext.Encoder) error {
 		}()
 	case BPanic:
 		panic(PeerPanic{id})
+	case BNestedThenReset:
+		var err error
+		switch id & 3 {
+		case 0:
+			err = json.MarshalEncode(enc, []PTo{{ID: 0}})
+		case 1:
+			err = json.MarshalEncode(enc, map[string]PTo{"k": {ID: 0}})
+		case 2:
+			err = json.MarshalEncode(enc, PTo{ID: 0})
+		default:
+			err = json.MarshalEncode(enc, struct{ F PTo }{PTo{ID: 0}})
+		}
+		func() {
+			defer func() {
+				if r := recover(); r == nil {
+					e.Findings = append(e.Findings, method+": Encoder.Reset inside a marshal call did not panic after a nested MarshalEncode")
+				}
+			}()
+			enc.Reset(io.Discard)
+		}()
+		return err
 	case BNestedFail:
 		entry := enc.StackDepth()
 		type inner struct {
